@@ -37,7 +37,7 @@ type assoc struct {
 	id         int
 }
 
-func isDNSTarget(t int) bool { return t == 0 || t == 3 }
+func isDNSTarget(t int) bool { return t == 0 || t == 3 || t == 7 }
 
 func Oracle(tr *udpx.Trace) (string, []*engine.Finding) {
 	var fs []*engine.Finding
@@ -301,6 +301,8 @@ func menu(T time.Duration) []udpx.Op {
 		{K: "R", C: 1, T: 3, N: 50},
 		{K: "S", C: 0, Key: 0, T: 6, N: 21}, // port 8053: not DNS
 		{K: "R", C: 0, T: 6, N: 22},
+		{K: "S", C: 0, Key: 0, T: 7, N: 23}, // DNS server with an IPv6 address
+		{K: "R", C: 0, T: 7, N: 24},
 		{K: "E", C: 0}, // transient read error on client 0's outbound socket
 		{K: "A", D: time.Second},
 		{K: "A", D: 16 * time.Second},
@@ -460,7 +462,7 @@ func init() {
 				_ = i
 			}
 		}
-		ctx.Res.Note("nat-life: all 16^%d sequences for NAT timeouts 300 s and 10 s", depth)
+		ctx.Res.Note("nat-life: all %d^%d sequences for NAT timeouts 300 s and 10 s", len(menu(time.Second)), depth)
 	})
 	hk.Replayers["C14"] = func(ctx *engine.Ctx, rp engine.Replay) []*engine.Finding {
 		if strings.HasPrefix(rp.Unit, "nat-race") {
